@@ -35,7 +35,7 @@ BUILD_ROOT = os.path.join(VERIF, ".build")
 GUARD = "ALDOR_VERIF"
 OPT = os.environ.get("VERIF_OPT", "-O1")
 CFLAGS = ["-w", OPT, "-g", "-D" + GUARD, '-DVCSVERSION="verif"']
-WRAPS = ["fopen", "sbrk", "time", "times", "clock", "getpid", "unlink", "rename", "mkdir", "main"]
+WRAPS = ["fopen", "sbrk", "time", "times", "clock", "getpid", "unlink", "rename", "mkdir", "stat", "main"]
 WRAPFLAG = "-Wl," + ",".join("--wrap=" + w for w in WRAPS)
 
 RTS_FALLBACK = ["aldorlib.c", "btree.c", "compopt.c", "dword.c", "foam_c.c", "foam_cfp.c",
